@@ -308,7 +308,7 @@ def split_suffix_smt(cross: bool = False):
                 return {"verdict": "unknown", "detail": f"L={L}: {r}", "queries": queries, "solver_s": solver_s}
             if cross:
                 cc = cross_check_cvc5(s, "unsat")
-                if cc not in (True, None):
+                if str(cc).startswith("disagree"):
                     return {"verdict": "unknown", "detail": f"cvc5 disagrees for L={L}: {cc}", "queries": queries, "solver_s": solver_s}
             # translator validation: the encoding evaluated on concrete counts equals the real suffix
             for n in (0, 7, 10, 99, 100, 12345):
